@@ -264,6 +264,29 @@ func damagedStream(r *rand.Rand) []byte {
 		}
 	}
 	rec := serializeRecord("1.1", fields, g.body, pick(r, []string{"\r\n", "\r\n", "\r\n", "\n"}))
+	if r.Intn(4) == 0 {
+		// exactly one line of the header section (version line, a field line, or the empty line that
+		// ends the section) has a bare LF; every other line ends in CRLF
+		var b bytes.Buffer
+		bad := r.Intn(len(fields) + 2)
+		if r.Intn(3) == 0 {
+			bad = len(fields) + 1
+		}
+		le := func(i int) string {
+			if i == bad {
+				return "\n"
+			}
+			return "\r\n"
+		}
+		b.WriteString("WARC/1.1" + le(0))
+		for i, f := range fields {
+			b.WriteString(f[0] + ": " + f[1] + le(i+1))
+		}
+		b.WriteString(le(len(fields) + 1))
+		b.Write(g.body)
+		b.WriteString("\r\n\r\n")
+		rec = b.Bytes()
+	}
 	if r.Intn(3) == 0 {
 		rec = append(rec, wellFormedRecord(r)...)
 	}
